@@ -225,7 +225,11 @@ func envFileIndexer(y any, p tree.Path) (string, error) {
 		return value, nil
 	case map[string]any:
 		if pathValue, ok := value["path"]; ok {
-			return pathValue.(string), nil
+			envFile, ok := pathValue.(string)
+			if !ok {
+				return "", fmt.Errorf("%s.path must be a string", p)
+			}
+			return envFile, nil
 		}
 		return "", fmt.Errorf("environment path attribute %s is missing", p)
 	}
